@@ -60,7 +60,7 @@ func Keygen(group curve.Curve, receiver bool, selfID, otherID party.ID, pl *pool
 // This won't change the value of the public key, but it will change the value of the chaining key.
 // If this isn't desirable, then the new chain key can simply be overwritten with the previous value.
 func RefreshReceiver(config *ConfigReceiver, selfID, otherID party.ID, pl *pool.Pool) protocol.StartFunc {
-	if config == nil || config.SecretShare == nil || config.Public == nil {
+	if config == nil || config.SecretShare == nil || config.Public == nil || config.SecretShare.IsZero() || config.Public.IsIdentity() {
 		return startError(errors.New("doerner.RefreshReceiver: config is nil or incomplete"))
 	}
 	return keygen.StartKeygen(config.Group(), true, selfID, otherID, config.SecretShare, config.Public, pl)
@@ -70,7 +70,7 @@ func RefreshReceiver(config *ConfigReceiver, selfID, otherID party.ID, pl *pool.
 //
 // See RefreshReceiver.
 func RefreshSender(config *ConfigSender, selfID, otherID party.ID, pl *pool.Pool) protocol.StartFunc {
-	if config == nil || config.SecretShare == nil || config.Public == nil {
+	if config == nil || config.SecretShare == nil || config.Public == nil || config.SecretShare.IsZero() || config.Public.IsIdentity() {
 		return startError(errors.New("doerner.RefreshSender: config is nil or incomplete"))
 	}
 	return keygen.StartKeygen(config.Group(), false, selfID, otherID, config.SecretShare, config.Public, pl)
@@ -85,7 +85,7 @@ func RefreshSender(config *ConfigSender, selfID, otherID party.ID, pl *pool.Pool
 //
 // A pool can be passed to this function, to parallelize certain operations and improve performance.
 func SignReceiver(config *ConfigReceiver, selfID, otherID party.ID, hash []byte, pl *pool.Pool) protocol.StartFunc {
-	if config == nil || config.Setup == nil || config.SecretShare == nil || config.Public == nil {
+	if config == nil || config.Setup == nil || config.SecretShare == nil || config.Public == nil || config.SecretShare.IsZero() || config.Public.IsIdentity() {
 		return startError(errors.New("doerner.SignReceiver: config is nil or incomplete"))
 	}
 	if len(hash) == 0 {
@@ -98,7 +98,7 @@ func SignReceiver(config *ConfigReceiver, selfID, otherID party.ID, hash []byte,
 //
 // See SignReceiver for more information.
 func SignSender(config *ConfigSender, selfID, otherID party.ID, hash []byte, pl *pool.Pool) protocol.StartFunc {
-	if config == nil || config.Setup == nil || config.SecretShare == nil || config.Public == nil {
+	if config == nil || config.Setup == nil || config.SecretShare == nil || config.Public == nil || config.SecretShare.IsZero() || config.Public.IsIdentity() {
 		return startError(errors.New("doerner.SignSender: config is nil or incomplete"))
 	}
 	if len(hash) == 0 {
